@@ -33,6 +33,6 @@ Definition C20_ti_out := (N * N)%type.
 Definition C20_ti_run (i : C20_ti_in) : C20_ti_out :=
   let '(trk, len, count) := i in
   let r := read_track trk 0 len in
-  let s := mkV (Some (r, count)) (Some true) None (Ok []) (Ok 0) 0 in
+  let s := mkV (Some (r, count)) (Some true) None (Ok []) true (Ok 0) 0 in
   (match r with Ok _ => 1 | _ => 0 end,
    match verify_overall true s with Passed => 0 | _ => 1 end).
